@@ -116,6 +116,9 @@ const (
 	kSet
 	kInv
 	kRet
+	kCommitFail  // the store's batch Commit was called (with the mutations in batch) and returned the injected error
+	kBatchedFail // store.Batched() returned the injected error
+	kPanic       // the writer goroutine panicked with the injected error
 )
 
 type event struct {
@@ -147,8 +150,22 @@ func (e event) coq() string {
 		return fmt.Sprintf("EvInv %d", e.t)
 	case kRet:
 		return fmt.Sprintf("EvRet %d %s", e.t, []string{"RAcc", "RRej", "RDup", "RUnit", "(RStop true)"}[e.v])
+	case kCommitFail:
+		return "FCommitFail " + vx.ListOf(e.batch, func(p [2]int) string { return fmt.Sprintf("(%d, %d)", p[0], p[1]) })
+	case kBatchedFail:
+		return "FBatchedFail"
+	case kPanic:
+		return "FPanic"
 	}
 	return "?"
+}
+
+// fcoq: the event as a term of FaultModel.fev
+func (e event) fcoq() string {
+	if e.kind >= kCommitFail {
+		return e.coq()
+	}
+	return "FE (" + e.coq() + ")"
 }
 
 func (e event) String() string { return e.coq() }
@@ -168,14 +185,42 @@ type world struct {
 	armedAt   atomic.Int64 // unix nanos of the last Batched without a Commit/Cancel since; 0 = none
 	inner     kvstore.KVStore
 	objs      []*object
+
+	// fault injection (fault.go): the failCommitAt-th call of the store's batch Commit / the failBatchedAt-th call of
+	// store.Batched() returns an error (1-based; 0 = never)
+	failCommitAt  int
+	failBatchedAt int
+	nCommit       atomic.Int32
+	nBatched      atomic.Int32
+	park          bool          // the injected error parks the panicking goroutine (the process survives)
+	panicked      chan struct{} // closed when the writer panicked with the injected error
+	panicOnce     sync.Once
+	sink          func(event) // child-process mode: every event is written out at once
+	// free-running modes with a spinning writer (batch time-out <= 0): a round (Batched, Cancel) that repeats the
+	// previous round is not logged again (idempotent for every log predicate)
+	compress   bool
+	idleRounds int
 }
 
 var knownWriters sync.Map // gid -> true
 
 func (w *world) wevent(e event) {
 	w.mu.Lock()
+	if w.compress && e.kind == kCommit && e.cancel {
+		if n := len(w.events); n >= 3 && w.events[n-1].kind == kBatched && w.events[n-2].kind == kCommit && w.events[n-2].cancel && w.events[n-3].kind == kBatched {
+			w.events = w.events[:n-1]
+			w.idleRounds++
+			w.mu.Unlock()
+			return
+		}
+	}
 	w.events = append(w.events, e)
-	w.full = append(w.full, e)
+	if !w.compress {
+		w.full = append(w.full, e)
+	}
+	if w.sink != nil {
+		w.sink(e)
+	}
 	w.mu.Unlock()
 	switch e.kind {
 	case kBatched:
@@ -196,6 +241,10 @@ type wstore struct {
 }
 
 func (s *wstore) Batched() (kvstore.BatchedMutations, error) {
+	if n := int(s.w.nBatched.Add(1)); n == s.w.failBatchedAt {
+		s.w.wevent(event{kind: kBatchedFail})
+		return nil, &injErr{w: s.w}
+	}
 	bm, err := s.KVStore.Batched()
 	if s.w.writerGid.Load() == 0 {
 		g := curGid()
@@ -222,6 +271,11 @@ func (b *wbatch) Cancel() {
 	b.w.wevent(event{kind: kCommit, cancel: true})
 }
 func (b *wbatch) Commit() error {
+	if n := int(b.w.nCommit.Add(1)); n == b.w.failCommitAt {
+		b.BatchedMutations.Cancel() // nothing reaches the store
+		b.w.wevent(event{kind: kCommitFail, batch: b.sets})
+		return &injErr{w: b.w}
+	}
 	err := b.BatchedMutations.Commit()
 	b.w.wevent(event{kind: kCommit, batch: b.sets})
 	return err
@@ -762,8 +816,33 @@ func judge(log []event, final []int, stopped bool) string {
 	lastWriteAfterSet := map[int]bool{}
 	retOf := map[int]int{}
 	stopInv, stopRet := -1, -1
+	failed := false // a store call (batch Commit / Batched) has returned an error
+	var failedBatch [][2]int
 	for i, e := range log {
+		if failed && e.kind <= kDone {
+			if e.kind == kDone {
+				for _, p := range failedBatch {
+					if p[0] == e.o {
+						return fmt.Sprintf("BatchWriteDone(%d) although the store refused to commit the batch %v holding its mutation (Commit returned an error, nothing was written)", e.o, failedBatch)
+					}
+				}
+			}
+			return "writer callback " + e.coq() + " after a store call had failed (BatchWriteDone / further batches without a successful commit)"
+		}
+		if failed && e.kind == kRet && e.v == 4 {
+			return fmt.Sprintf("StopBatchWriter returned although a store call had failed (refused batch %v): enqueued objects were never persisted", failedBatch)
+		}
 		switch e.kind {
+		case kCommitFail:
+			if len(pend) != 0 || len(e.batch) == 0 || fmt.Sprint(e.batch) != fmt.Sprint(unc) {
+				return fmt.Sprintf("refused commit %v does not carry exactly the written mutations %v (or BatchWriteDone calls were due)", e.batch, unc)
+			}
+			failed, failedBatch = true, e.batch
+		case kBatchedFail:
+			if len(unc) != 0 || len(pend) != 0 {
+				return "new batch requested while the previous one is open or BatchWriteDone calls are due"
+			}
+			failed = true
 		case kSet:
 			lastSet[e.o] = e
 			lastWriteAfterSet[e.o] = false
@@ -936,9 +1015,16 @@ func main() {
 	if len(os.Args) < 2 {
 		vx.Die("usage: hx-c08 run [flags]")
 	}
+	if os.Args[1] == "faultchild" {
+		childMain(os.Args[2:])
+		return
+	}
 	fs := flag.NewFlagSet("run", flag.ExitOnError)
 	n := fs.Int("n", 200, "scripted cases")
 	nfree := fs.Int("free", 100, "free-running cases")
+	nfault := fs.Int("fault", 0, "free-running cases over a store with an injected fault (in-process)")
+	nchild := fs.Int("child", 0, "sequential fault cases in a child process that really dies")
+	nopts := fs.Int("opts", 0, "rounds over the grid of option corner values")
 	workers := fs.Int("workers", 4, "parallel scripted cases")
 	seed := fs.Uint64("seed", 1, "seed")
 	out := fs.String("out", "cases.v", "cases file")
@@ -947,9 +1033,9 @@ func main() {
 
 	kvstore.SetVerifYield(hookFn)
 	rng := vx.NewRng(*seed)
-	st := vx.NewStats("scripted: 2-7 client calls (Enqueue on 3 objects / Flush / Stop) released in scripted order, optional holds at the Enqueue hook / flag test / writer callbacks, queue 0-3, batch 1-3, timer waits; free: 1-3 producers x 1-4 Enqueue + Flush + racing Stop, timeout 1-3ms; distinct = distinct (config, item sequence); non-trivial = at least one commit and one Stop or hold")
+	st := vx.NewStats("fault: free-running cases / sequential child-process cases over a store whose n-th batch Commit or Batched() call fails; opts: grid of option corner values (time-out -1h..1h, batch 1/2/4/default, queue 0/1/2/default) x 5 scenario shapes, completeness at Stop; scripted: 2-7 client calls (Enqueue on 3 objects / Flush / Stop) released in scripted order, optional holds at the Enqueue hook / flag test / writer callbacks, queue 0-3, batch 1-3, timer waits; free: 1-3 producers x 1-4 Enqueue + Flush + racing Stop, timeout 1-3ms; distinct = distinct (config, item sequence); non-trivial = at least one commit and one Stop or hold")
 	cf := &vx.CasesFile{
-		Header: "From Coq Require Import List Bool ZArith.\nFrom Verif.C08_Batch Require Import Model Corr.\nImport ListNotations.\n",
+		Header: "From Coq Require Import List Bool ZArith.\nFrom Verif.C08_Batch Require Import Model FaultModel Corr.\nImport ListNotations.\n",
 		Type:   "case",
 		Footer: "Definition M := Eval vm_compute in mismatches cases.\nPrint M.\n",
 	}
@@ -1118,11 +1204,161 @@ func main() {
 			st.Count("free/enqueue-rejected-by-racing-stop")
 		}
 	}
+	// ---- store faults (in-process) ----
+	faultHangs := 0
+	for i := 0; i < *nfault; i++ {
+		if faultHangs >= 3 {
+			st.Count("skipped-after-hangs")
+			continue
+		}
+		sub := rng.Fork()
+		shape := i % 3
+		log, final, desc, hang := runFault(sub, shape)
+		flog, reached, panicked := splitAtFault(log)
+		if reached {
+			cf.Add(fmt.Sprintf("Faulty %s 3 %s", vx.ListOf(flog, func(e event) string { return e.fcoq() }), storeCoq(final)))
+		} else {
+			cf.Add(fmt.Sprintf("Free %s 3 %s true", vx.ListOf(log, func(e event) string { return e.coq() }), storeCoq(final)))
+		}
+		st.CaseIndex = append(st.CaseIndex, map[string]any{"mode": "fault", "cfg": desc, "index": i})
+		if hang != "" {
+			faultHangs++
+			st.Fail(map[string]any{"mode": "fault", "what": hang, "cfg": desc, "index": i, "log": fmt.Sprint(flog)})
+		} else if msg := judge(log, final, !reached); msg != "" {
+			st.Fail(map[string]any{"mode": "fault", "what": msg, "cfg": desc, "index": i, "log": fmt.Sprint(flog)})
+		}
+		st.Case(fmt.Sprint(desc, flog), reached)
+		switch {
+		case reached && panicked:
+			st.Count("fault/reached-and-writer-panicked")
+		case reached:
+			st.Count("fault/reached-no-panic")
+		default:
+			st.Count("fault/not-reached(judged-as-free-run)")
+		}
+		for _, e := range flog {
+			if e.kind == kCommitFail {
+				st.Count("fault/commit-refused")
+			} else if e.kind == kBatchedFail {
+				st.Count("fault/batched-refused")
+			}
+		}
+	}
+	// ---- store faults (child process) ----
+	for i := 0; i < *nchild; i++ {
+		sub := rng.Fork()
+		cr := runChild(sub)
+		flog, reached, _ := splitAtFault(cr.log)
+		if reached {
+			cf.Add(fmt.Sprintf("Faulty %s 3 %s", vx.ListOf(flog, func(e event) string { return e.fcoq() }), storeCoq(cr.final)))
+		} else {
+			cf.Add(fmt.Sprintf("Free %s 3 %s true", vx.ListOf(cr.log, func(e event) string { return e.coq() }), storeCoq(cr.final)))
+		}
+		st.CaseIndex = append(st.CaseIndex, map[string]any{"mode": "fault-child", "cfg": cr.desc, "index": i})
+		if cr.problem != "" {
+			vx.Die("fault child: %s (%s)", cr.problem, cr.desc)
+		}
+		if cr.abnormal != "" {
+			st.Fail(map[string]any{"mode": "fault-child", "what": "the child process ended without finishing its script (Enqueue..., StopBatchWriter) although no store call had failed: " + cr.abnormal, "cfg": cr.desc, "index": i, "log": fmt.Sprint(flog)})
+		} else if msg := judge(cr.log, cr.final, !reached); msg != "" {
+			st.Fail(map[string]any{"mode": "fault-child", "what": msg, "cfg": cr.desc, "index": i, "log": fmt.Sprint(flog)})
+		}
+		st.Case(fmt.Sprint(cr.desc, flog), reached)
+		switch {
+		case reached && cr.died:
+			st.Count("fault-child/reached-and-process-died-with-the-injected-panic")
+		case reached:
+			st.Count("fault-child/reached-process-survived")
+		default:
+			st.Count("fault-child/not-reached")
+		}
+	}
+	// ---- option corner values ----
+	if *nopts > 0 {
+		grid := optGrid()
+		type ores struct {
+			log     []event
+			final   []int
+			desc    string
+			hang    string
+			spins   int
+			skipped bool
+			cfg     optCfg
+		}
+		var jobs []ores
+		var subsO []*vx.Rng
+		shapes := []int{}
+		off := rng.Intn(nOptShapes)
+		for r := 0; r < *nopts; r++ {
+			for gi, c := range grid {
+				jobs = append(jobs, ores{cfg: c})
+				subsO = append(subsO, rng.Fork())
+				shapes = append(shapes, (gi+gi/4*2+off+r)%nOptShapes)
+			}
+		}
+		var nextO, hangsO atomic.Int32
+		var wgo sync.WaitGroup
+		for wk := 0; wk < *workers; wk++ {
+			wgo.Add(1)
+			go func() {
+				defer wgo.Done()
+				for {
+					i := int(nextO.Add(1)) - 1
+					if i >= len(jobs) {
+						return
+					}
+					if hangsO.Load() >= 3 {
+						jobs[i].skipped = true
+						continue
+					}
+					j := &jobs[i]
+					j.log, j.final, j.desc, j.hang, j.spins = runOpts(subsO[i], j.cfg, shapes[i])
+					if j.hang != "" {
+						hangsO.Add(1)
+					}
+				}
+			}()
+		}
+		wgo.Wait()
+		for i, j := range jobs {
+			if j.skipped {
+				st.Count("skipped-after-hangs")
+				continue
+			}
+			cf.Add(fmt.Sprintf("Free %s 3 %s true", vx.ListOf(j.log, func(e event) string { return e.coq() }), storeCoq(j.final)))
+			st.CaseIndex = append(st.CaseIndex, map[string]any{"mode": "opts", "cfg": j.desc, "index": i})
+			nw, nd := 0, 0
+			for _, e := range j.log {
+				if e.kind == kWrite {
+					nw++
+				} else if e.kind == kDone {
+					nd++
+				}
+			}
+			if j.hang != "" {
+				st.Fail(map[string]any{"mode": "opts", "what": fmt.Sprintf("%s; so far %d BatchWrite, %d BatchWriteDone, store %v", j.hang, nw, nd, j.final), "cfg": j.desc, "index": i, "log": fmt.Sprint(j.log)})
+			} else if msg := judge(j.log, j.final, true); msg != "" {
+				st.Fail(map[string]any{"mode": "opts", "what": msg, "cfg": j.desc, "index": i, "log": fmt.Sprint(j.log)})
+			}
+			st.Case(fmt.Sprint(j.desc, j.log), nw > 0)
+			c := j.cfg
+			ts := "default(500ms)"
+			if c.T != optDefault {
+				ts = c.T.String()
+			}
+			st.Count("opts/timeout=" + ts)
+			st.Count("opts/" + strings.Fields(c.String())[1])
+			st.Count("opts/" + strings.Fields(c.String())[2])
+			if j.spins > 0 {
+				st.Count("opts/writer-spun-on-empty-batches")
+			}
+		}
+	}
 	if err := cf.Write(*out); err != nil {
 		vx.Die("write cases: %v", err)
 	}
 	if err := st.Write(*stats); err != nil {
 		vx.Die("write stats: %v", err)
 	}
-	fmt.Printf("c08: %d scripted (%d tainted retries), %d free, %d oracle failures\n", *n, tainted, *nfree, len(st.OracleFailures))
+	fmt.Printf("c08: %d scripted (%d tainted retries), %d free, %d fault + %d child, %d opts rounds, %d oracle failures\n", *n, tainted, *nfree, *nfault, *nchild, *nopts, len(st.OracleFailures))
 }
